@@ -170,13 +170,8 @@ def handleC20 (j : Json) : Except String Verdict := do
     let bad := pairs.filter (fun e => !okOf e)
     let spec := sameCount && bad.isEmpty
     let isCU (F : EFib) : Bool := F.fmt == .C && F.next == some .U
-    let onlyCU := !bad.isEmpty && bad.all (fun e => isCU e.1 && e.1.n ≥ 2 &&
-      -- exactly the recorded behaviour: coordinates right, occupancy_so_far for every payload
-      e.2.scan == some (modelScan e.1))
-    let tags := shapeTags ++ (if onlyCU then ["scanOnlyCoverU"] else []) ++
-      (if allM.any (fun F => isCU F && F.n ≥ 2) then ["CoverU2"] else [])
-    let why := if spec then "" else if onlyCU then "scan:C-over-U: every element designates the first child"
-               else "scan: elements differ"
+    let tags := shapeTags ++ (if allM.any (fun F => isCU F && F.n ≥ 2) then ["CoverU2"] else [])
+    let why := if spec then "" else "scan: elements differ"
     pure { agree, spec, tags, why,
            model := jList (allM.map (fun F => jList ((modelScan F).map (fun r =>
              jList [r.1.elim Json.null jInt, r.2.1.elim Json.null jInt, r.2.2.elim Json.null jInt])))) }
@@ -185,10 +180,8 @@ def handleC20 (j : Json) : Except String Verdict := do
       pairs.all (fun e => e.2.size == some (sizeCode e.1.getSize))
     let bad := pairs.filter (fun e => e.2.size != some (e.1.words : Int))
     let spec := sameCount && bad.isEmpty
-    let onlyEmpty := !bad.isEmpty && bad.all (fun e => e.2.size == some (-1) && e.1.sizeAsserts)
-    let tags := shapeTags ++ (if onlyEmpty then ["sizeAssertOnlyEmpty"] else [])
-    let why := if spec then "" else if onlyEmpty then "size:assert fires on a fiber without elements"
-               else "size: differs from the words of the layout"
+    let tags := shapeTags
+    let why := if spec then "" else "size: differs from the words of the layout"
     pure { agree, spec, tags, why,
            model := jList (allM.map (fun F => jList [jInt (sizeCode F.getSize), jNat F.words])) }
   | "lookup" =>
